@@ -105,7 +105,14 @@ def run(ctx):
             else:
                 written.extend(chunk)
         # pieces must not be re-split / re-expanded by flags they were not written for
-        if fs['SPLIT'] and any(re.search(r'(?<!\\)\|', p) and '(' not in p and '[' not in p for p in inc + exc):
+        def bar_exposed(p):
+            # an unescaped `|` that SPLIT would cut at: outside brackets, and outside groups unless EXTMATCH reads them
+            if not re.search(r'(?<!\\)\|', p):
+                return False
+            if '[|]' in p and p.count('|') == 1:
+                return False
+            return not (fs['EXTMATCH'] and '(' in p)
+        if fs['SPLIT'] and any(bar_exposed(p) for p in inc + exc):
             continue
         if fs['BRACE'] and any('{' in p for p in inc + exc):
             continue
